@@ -400,7 +400,7 @@ def render_file(world, i, proj_abs, ids, target_value):
         else:
             pos = be["form"].split(":", 1)[1]
             e = '(import "%s").id' % p
-            L.append(POS[pos].replace("@EQ@", e.replace('"', '\\"')).replace("@E@", e).replace("@N@", "back").replace("@X@", "zz"))
+            L.append(POS[pos].replace("@EQ@", e.replace("\\", "\\\\").replace('"', '\\"')).replace("@E@", e).replace("@N@", "back").replace("@X@", "zz"))
     if vs:
         # values pass through the identity function so that the static checker's opinion about them (C07's business) stays out of the way
         L.append('let id = "%s[" + %s + "]";' % (f["uid"], ' + "," + '.join("idf(%s)" % v for v in vs)))
